@@ -4,6 +4,7 @@ import (
 	"encoding/json"
 	"fmt"
 	"os"
+	"sort"
 	"strconv"
 	"strings"
 
@@ -354,6 +355,20 @@ func (x *Explorer) answerFor(q *gw.Req) gw.Action {
 			}
 			json.Unmarshal(q.Payload, &pc)
 			pol = x.policy(string(pl.Token)+"/"+pc.CID, rest)
+			if pol.deny != 0 && !fault {
+				// from the moment a denial is on its way that client sends nothing until the next quiescent point: a request
+				// queued behind the denial would create a second Subscription object while the first one may still be a
+				// subscriber of the cache entry, and the order in which one cache task serves two objects of one connection is
+				// Go's map iteration order (the machine of Comp/Core.v serves them in creation order)
+				if x.onceDone == nil {
+					x.onceDone = map[string]bool{}
+				}
+				for label, cid := range x.Run.W.CIDs() {
+					if cid == pc.CID {
+						x.onceDone[label] = true
+					}
+				}
+			}
 		}
 		switch {
 		case fault && x.R.Intn(2) == 0:
@@ -514,10 +529,12 @@ func (x *Explorer) svcEvent() (gw.Action, bool) {
 		ch[9] = absval.V{K: 'p', N: x.fresh()} // makes every change event unique and effective
 		if x.P.Once && x.R.Intn(3) == 0 {
 			// partly ineffective: a key repeated with the value it has (the gateway forwards the effective part only)
-			for key, v := range c.M {
-				if _, ok := ch[key]; !ok {
-					ch[key] = v
-					break
+			for key := 0; key < 10; key++ {
+				if v, held := c.M[key]; held {
+					if _, ok := ch[key]; !ok {
+						ch[key] = v
+						break
+					}
 				}
 			}
 		}
@@ -1118,7 +1135,12 @@ func (x *Explorer) policy(token, rname string) accessPolicy {
 
 // changePolicy re-draws the policy of a resource for every token; the caller announces it.
 func (x *Explorer) changePolicy(rname string) {
+	keys := make([]string, 0, len(x.pol))
 	for k := range x.pol {
+		keys = append(keys, k)
+	}
+	sort.Strings(keys) // (the draws below must not depend on map iteration order: a seed determines the history)
+	for _, k := range keys {
 		if strings.HasSuffix(k, " "+rname) {
 			p := accessPolicy{call: x.R.Pick("*", "set,foo", "", "foo")}
 			if x.R.Intn(3) == 0 {
